@@ -230,6 +230,24 @@ CLAIMED["C18"] = {
     "design": "DESIGN.md section 3 C18",
 }
 
+CLAIMED["C02"] = {
+    "text": "Bounded model checking of the real FullscreenWindow.render_to_terminal (with on_terminal_size_change, the row "
+            "cache and FmtStr.__eq__) against a reference terminal model with xterm pending-wrap semantics, as an inductive "
+            "step: from an ARBITRARY junk screen a fresh window's render(A) must show A; from the state that left - "
+            "optionally after a resize to a different size that leaves arbitrary junk - render(B) must show B: every cell "
+            "(character and formatting), blanks elsewhere, cursor on cursor_pos, cursor visibility, never a scroll. Every "
+            "row character and junk cell is symbolic, so the cache comparison `line == cached` forks symbolically; shapes "
+            "(sizes, heights 0..h+1, row lengths 0..w+1, str / 1-run / 2-run rows, list or FSArray) and the cursor target "
+            "are enumerated by the solver.",
+    "note": "Trusted: CPython, CrossHair + z3, the terminal model (replays are judged by the pyte emulator on the real byte "
+            "stream), C01 for the content of a row's terminal string (rows reach the model as FmtStr through the public "
+            "fmtstr_to_stdout_xform hook), the real blessed capability strings (move() strings tabulated once). Terminal "
+            "sizes up to 2x2 (+ resize targets up to 2x3) quick, 3x3 thorough; wide characters outside (the statement says "
+            "single-column characters).",
+    "technique": TECH + "; terminal-model environment stub, inductive step from a symbolic junk state",
+    "design": "DESIGN.md section 3 C02",
+}
+
 NOT_YET = {}
 
 ALL = ["C%02d" % i for i in range(1, 21)]
